@@ -8,6 +8,7 @@ import (
 	"fmt"
 	"net"
 	"strings"
+	"sync"
 	"time"
 
 	"github.com/codelaboratoryltd/bng/pkg/dhcp"
@@ -320,6 +321,12 @@ func (f *fakeRADIUS) serve(c *net.UDPConn, accept bool) {
 
 func (f *fakeRADIUS) close() { f.auth.Close(); f.acct.Close() }
 
+// radiusOrder puts request, request-relayed-opt82, release, discover first (the quick tier of the
+// RADIUS-configured parts uses only those).
+func radiusOrder(s []seed) []seed {
+	return []seed{s[1], s[2], s[5], s[0], s[3], s[4], s[6], s[7]}
+}
+
 // ---------------------------------------------------------------- DHCPv6
 
 func serverDUID6() []byte {
@@ -339,6 +346,7 @@ func newDHCP6(pools bool, prestate string) *dhcpv6.Server {
 	if err != nil {
 		panic(err)
 	}
+	s.VerifC09SetConn(closedUDP()) // answers fail with "use of closed network connection" (logged), no I/O
 	if prestate == "lease" {
 		s.VerifC09Handle(dhcp6Seeds(serverDUID6())[1].data, from6)
 		if s.VerifC09Leases() != 1 {
@@ -346,6 +354,22 @@ func newDHCP6(pools bool, prestate string) *dhcpv6.Server {
 		}
 	}
 	return s
+}
+
+var closedOnce sync.Once
+var closedConn *net.UDPConn
+
+// closedUDP is a bound-then-closed socket: the server's WriteToUDP returns an error instead of sending.
+func closedUDP() *net.UDPConn {
+	closedOnce.Do(func() {
+		c, err := net.ListenUDP("udp", &net.UDPAddr{IP: net.IPv4(127, 0, 0, 1)})
+		if err != nil {
+			panic(err)
+		}
+		c.Close()
+		closedConn = c
+	})
+	return closedConn
 }
 
 var from6 = &net.UDPAddr{IP: net.ParseIP("fe80::1"), Port: 546, Zone: "lo"}
@@ -656,6 +680,9 @@ func allTargets() []*target {
 			c := dhcpCfg{loader: loader, prestate: ps}
 			add(&target{name: fmt.Sprintf("dhcp.Server.handleDHCP[no RADIUS,loader=%v,%s]", loader, ps), entry: "dhcp.Server.handleDHCP", seeds: dhcp4Seeds(), light: true,
 				call: func(_ any, in []byte) bool {
+					if !dhcp.VerifC09Decodes(in) { // rejected by server4's decoder: the handler is never reached
+						return false
+					}
 					s, fc := newDHCP(c)
 					return s.VerifC09Handle(fc, peer4, in) && fc.writes > 0
 				}})
@@ -667,13 +694,16 @@ func allTargets() []*target {
 				continue
 			}
 			mode, ps := mode, ps
-			add(&target{name: fmt.Sprintf("dhcp.Server.handleDHCP[RADIUS %s,%s]", mode, ps), entry: "dhcp.Server.handleDHCP (RADIUS client configured)", seeds: dhcp4Seeds(), light: true,
+			add(&target{name: fmt.Sprintf("dhcp.Server.handleDHCP[RADIUS %s,%s]", mode, ps), entry: "dhcp.Server.handleDHCP (RADIUS client configured)", seeds: radiusOrder(dhcp4Seeds()), light: true, quickSeeds: 4, quickSkip: mode == "reject" || (mode == "accept" && ps == "leased"),
 				isolate: true, // handleRequest/handleRelease start accounting goroutines
 				newCtx: func() (any, func()) {
 					f := startFakeRADIUS(mode != "reject")
 					return f, f.close
 				},
 				call: func(cx any, in []byte) bool {
+					if !dhcp.VerifC09Decodes(in) {
+						return false
+					}
 					f := cx.(*fakeRADIUS)
 					pre := ps
 					c := dhcpCfg{radius: mode, prestate: pre, radiusAddr: f.auth.LocalAddr().(*net.UDPAddr)}
@@ -691,11 +721,18 @@ func allTargets() []*target {
 		v := v
 		add(&target{name: fmt.Sprintf("dhcpv6.Server.handleMessage[pools=%v,%s]", v.pools, v.ps), entry: "dhcpv6.Server.handleMessage", seeds: dhcp6Seeds(sd),
 			wraps: []func([]byte) []byte{
-				func(p []byte) []byte { return append([]byte{1, 0, 0, 1, 0, 1, 0, byte(len(p))}, p...) },                                     // Solicit, ClientID = p
-				func(p []byte) []byte { return append(append([]byte{1, 0, 0, 1, 0, 1, 0, 2, 0, 1}, 0, 3, 0, byte(len(p))), p...) },           // Solicit, IA_NA = p
-				func(p []byte) []byte { return append(append([]byte{4, 0, 0, 1, 0, 1, 0, 2, 0, 1}, 0, 3, 0, byte(12+len(p))), append(iaBody(1, 0, 0), p...)...) }, // Confirm, IA_NA options = p
+				func(p []byte) []byte { return append([]byte{1, 0, 0, 1, 0, 1, 0, byte(len(p))}, p...) }, // Solicit, ClientID = p
+				func(p []byte) []byte {
+					return append(append([]byte{1, 0, 0, 1, 0, 1, 0, 2, 0, 1}, 0, 3, 0, byte(len(p))), p...)
+				}, // Solicit, IA_NA = p
+				func(p []byte) []byte {
+					return append(append([]byte{4, 0, 0, 1, 0, 1, 0, 2, 0, 1}, 0, 3, 0, byte(12+len(p))), append(iaBody(1, 0, 0), p...)...)
+				}, // Confirm, IA_NA options = p
 			},
 			call: func(_ any, in []byte) bool {
+				if _, err := dhcpv6.ParseMessage(in); err != nil { // receiveLoop drops it before handleMessage
+					return false
+				}
 				s := newDHCP6(v.pools, v.ps)
 				return s.VerifC09Handle(in, from6)
 			}})
